@@ -111,6 +111,9 @@ type Machine struct {
 	// run inside rolled-back transactions too (Run draws the fate).
 	ExtraFates map[string]bool
 	nextFate   Fate
+	// rolledBackAcctScope: the scope of the last account creation that was
+	// rolled back (its number is free again)
+	rolledBackAcctScope *ScopeModel
 
 	T      Fataler
 	Prop   string
